@@ -77,6 +77,12 @@ func (ch *Channel) Invoke(ctx context.Context, methodName string, req, resp inte
 	r.Header = h
 	reply, err := ch.Transport.RoundTrip(r.WithContext(ctx))
 	if err != nil {
+		if ctxErr := ctx.Err(); ctxErr != nil {
+			// the transport says in its own words why it gave up (the context's
+			// cause, or a wrapped error); the caller gets the status that goes
+			// with the state of its context
+			return statusFromContextError(ctxErr)
+		}
 		return statusFromContextError(err)
 	}
 
@@ -517,6 +523,11 @@ func (cs *clientStream) doHttpCall(transport http.RoundTripper, req *http.Reques
 			// e.g. the server closed the connection without sending a reply;
 			// callers of RecvMsg must not mistake that for a normal end of stream
 			err = io.ErrUnexpectedEOF
+		}
+		if ctxErr := cs.ctx.Err(); ctxErr != nil {
+			// (see Invoke: the transport's error may be the context's cause or a
+			// wrapped error, not the context error itself)
+			err = ctxErr
 		}
 		onReady(statusFromContextError(err), nil)
 		return
